@@ -310,14 +310,18 @@ func runC03(c *Ctx) {
 			continue
 		}
 		found := false
-		ast.Inspect(fd.Body, func(n ast.Node) bool {
-			if call, ok := n.(*ast.CallExpr); ok {
-				if fn := calleeOf(p.TypesInfo, call); fn != nil && fullName(fn) == spec.want {
-					found = true
+		// (the function itself or an unexported function / method of the package it calls; either entry point of
+		// encoding/json — both escape for HTML unless told otherwise, which R2 excludes)
+		for _, ufd := range phaseUnit(p, fd) {
+			ast.Inspect(ufd.Body, func(n ast.Node) bool {
+				if call, ok := n.(*ast.CallExpr); ok {
+					if fn := calleeOf(p.TypesInfo, call); fn != nil && (fullName(fn) == spec.want || fullName(fn) == "encoding/json.Marshal" || fullName(fn) == "encoding/json.(Encoder).Encode") {
+						found = true
+					}
 				}
-			}
-			return true
-		})
+				return true
+			})
+		}
 		c.check(found, "C03.R2", funcKey(p, fd)+"|uses-encoding/json", c.pos(fd.Pos()), "encodes with "+spec.want, spec.name+" no longer encodes with "+spec.want)
 	}
 
@@ -780,51 +784,105 @@ func runC03(c *Ctx) {
 func jsonScriptBodyOnlyFromEncoder(c *Ctx, f *flow, rule string) {
 	sp := c.ssaPkg(".")
 	n := 0
+	// the unit: a function that writes the `<script` opener itself, or — when the element's writer is split into
+	// methods (start tag, body, end tag) — all methods of the receiver type that has one
+	type unit struct {
+		name string
+		fns  []*ssa.Function
+	}
+	var units []unit
+	byRecv := map[string][]*ssa.Function{}
 	for _, fn := range ssaFuncs(c.prog, sp) {
-		sinks := findSinks(fn)
-		opener, hasEnc := false, false
-		for _, s := range sinks {
-			if s.Kind == "Encoder.Encode" {
-				hasEnc = true
-			}
+		if fn.Signature.Recv() != nil {
+			byRecv[strings.TrimPrefix(fn.Signature.Recv().Type().String(), "*")] = append(byRecv[strings.TrimPrefix(fn.Signature.Recv().Type().String(), "*")], fn)
+		}
+	}
+	inUnit := map[*ssa.Function]bool{}
+	writesOpener := func(fn *ssa.Function) bool {
+		for _, s := range findSinks(fn) {
 			for _, o := range s.Operands {
 				if k, ok := o.(*ssa.Const); ok && k.Value != nil && k.Value.Kind() == constant.String && strings.HasPrefix(constant.StringVal(k.Value), "<script") {
-					opener = true
+					return true
 				}
 			}
 		}
-		if !opener {
+		return false
+	}
+	for _, fn := range ssaFuncs(c.prog, sp) {
+		if inUnit[fn] || !writesOpener(fn) {
 			continue
 		}
-		name := ssaFuncName(fn)
+		u := unit{name: ssaFuncName(fn), fns: []*ssa.Function{fn}}
+		if fn.Signature.Recv() != nil && strings.Contains(u.name, "JSONScript") {
+			u.fns = byRecv[strings.TrimPrefix(fn.Signature.Recv().Type().String(), "*")]
+		}
+		for _, m := range u.fns {
+			inUnit[m] = true
+		}
+		units = append(units, u)
+	}
+	// what counts as the encoder's output: Encoder.Encode, or bytes that json.Marshal returned (possibly with a newline
+	// appended), written as they are
+	fromMarshal := func(ls []leaf) bool {
+		any := false
+		for _, l := range flatten(ls) {
+			switch {
+			case l.Kind == "CALL" && strings.HasPrefix(l.Info, "encoding/json.Marshal#0"):
+				any = true
+			case l.Kind == "CONST" || l.Kind == "SAFE":
+			default:
+				return false
+			}
+		}
+		return any
+	}
+	for _, u := range units {
+		hasEnc := false
+		for _, fn := range u.fns {
+			for _, s := range findSinks(fn) {
+				if s.Kind == "Encoder.Encode" {
+					hasEnc = true
+				}
+				if s.Kind == "Writer.Write" && len(s.Operands) > 0 && fromMarshal(f.classify(s.Operands[0])) {
+					hasEnc = true
+				}
+			}
+		}
 		if !hasEnc {
 			// the script-template writers are decided by R3; a JSON script element that lost its encoder is reported here
-			if strings.Contains(name, "JSONScript") {
-				c.viol(rule, name+"|body-from-json-encoder", c.pos(fn.Pos()), name+" writes a <script> element but no longer hands its data to a json.Encoder")
+			if strings.Contains(u.name, "JSONScript") {
+				c.viol(rule, u.name+"|body-from-json-encoder", c.pos(u.fns[0].Pos()), u.name+" writes a <script> element but no longer hands its data to encoding/json")
 			}
 			continue
 		}
 		n++
-		ord := map[string]int{}
-		for _, s := range sinks {
-			ord[s.Kind]++
-			key := fmt.Sprintf("%s|%s#%d|json-script-write", name, s.Kind, ord[s.Kind])
-			if s.Kind == "Encoder.Encode" {
-				c.ok(rule, key, c.pos(s.Pos), "the data goes through encoding/json's encoder (HTML-safe unless SetEscapeHTML, R2)")
-				continue
-			}
-			bad := ""
-			for oi, o := range s.Operands {
-				for _, l := range flatten(f.classify(o)) {
-					switch l.Kind {
-					case "CONST", "ESCAPED":
-					default:
-						bad = fmt.Sprintf("operand %d is %s", oi, l.String())
+		for _, fn := range u.fns {
+			name := ssaFuncName(fn)
+			ord := map[string]int{}
+			for _, s := range findSinks(fn) {
+				ord[s.Kind]++
+				key := fmt.Sprintf("%s|%s#%d|json-script-write", name, s.Kind, ord[s.Kind])
+				if s.Kind == "Encoder.Encode" {
+					c.ok(rule, key, c.pos(s.Pos), "the data goes through encoding/json's encoder (HTML-safe unless SetEscapeHTML, R2)")
+					continue
+				}
+				if s.Kind == "Writer.Write" && len(s.Operands) > 0 && fromMarshal(f.classify(s.Operands[0])) {
+					c.ok(rule, key, c.pos(s.Pos), "the bytes written are what json.Marshal returned (HTML-safe, R2)")
+					continue
+				}
+				bad := ""
+				for oi, o := range s.Operands {
+					for _, l := range flatten(f.classify(o)) {
+						switch l.Kind {
+						case "CONST", "ESCAPED":
+						default:
+							bad = fmt.Sprintf("operand %d is %s", oi, l.String())
+						}
 					}
 				}
+				c.check(bad == "", rule, key, c.pos(s.Pos), "constant or HTML-escaped attribute value",
+					fmt.Sprintf("%s writes into the JSON <script> element something that is neither a constant, an escaped attribute value nor the JSON encoder's output (%s): already-encoded JSON such as json.RawMessage, or a string, reaches the script body without the HTML-safe escaping encoding/json applies", name, bad))
 			}
-			c.check(bad == "", rule, key, c.pos(s.Pos), "constant or HTML-escaped attribute value",
-				fmt.Sprintf("%s writes into the JSON <script> element something that is neither a constant, an escaped attribute value nor the JSON encoder's output (%s): already-encoded JSON such as a json.RawMessage may contain </script>, <!-- or U+2028 verbatim, which encoding/json would have escaped", name, bad))
 		}
 	}
 	c.count("json_script_element_writers", n)
